@@ -1412,7 +1412,8 @@ def isunresolvable(t: tp.Any) -> bool:
         >>> isunresolvable(...)
         True
     """
-    return t in _UNRESOLVABLE
+    # A parameterized callable (`Callable[[int], str]`) is as opaque as the bare one.
+    return t in _UNRESOLVABLE or tp.get_origin(t) in (abc_Callable, tp.Callable)
 
 
 _UNRESOLVABLE = (
